@@ -333,7 +333,11 @@ func (g *gen) genReads(n int) []Op {
 	var ops []Op
 	for i := 0; i < n; i++ {
 		var op Op
-		switch g.r.IntN(9) {
+		sel := g.r.IntN(9)
+		if g.cfg.Profile == "conc" && g.r.IntN(3) == 0 {
+			sel = 6 // queries (each builds its symbols, cursors and scanner anew) are where shared evaluation state shows
+		}
+		switch sel {
 		case 0, 1:
 			op = Op{K: "find", S: pick(g.r, AllStores)}
 			op.Id = pick(g.r, g.universeOf(op.S))
